@@ -42,6 +42,18 @@ func genC19(tier string, seed int64) []Case {
 	return cases
 }
 
+type lockedBuf struct {
+	mu sync.Mutex
+	n  int
+}
+
+func (b *lockedBuf) Write(p []byte) (int, error) {
+	b.mu.Lock()
+	b.n += len(p)
+	b.mu.Unlock()
+	return len(p), nil
+}
+
 type c19Proc struct {
 	d1, d2   time.Duration
 	name     string
@@ -129,8 +141,23 @@ func runC19(c *Ctx, d c19Desc) {
 		sup.Exec(ctx, &supvmodel.ExecRequest{Domain: "runtime", Name: "done", Path: "/bin/sh", Args: []string{"-c", "exit 4"}})
 		time.Sleep(300 * time.Millisecond)
 		c.Check(sup.Kill(ctx, &supvmodel.KillRequest{Domain: "runtime", Name: "done", Deadline: time.Now().Add(time.Second)}) == nil, "kill_exited_ok", "C19/kill-exited-fails", "Kill of an already exited process failed", nil)
+		// a leader that exits 0 while a forked child keeps its output pipe open for a while
+		sup.Exec(ctx, &supvmodel.ExecRequest{Domain: "runtime", Name: "orphan", Path: "/bin/sh", Args: []string{"-c", "sleep 0.9 & echo hi; exit 0"}, StdoutWriter: &lockedBuf{}, StderrWriter: &lockedBuf{}})
+		for i := 0; i < 1500; i++ {
+			mu.Lock()
+			n := len(events["orphan"])
+			mu.Unlock()
+			if n > 0 {
+				break
+			}
+			time.Sleep(4 * time.Millisecond)
+		}
 		time.Sleep(100 * time.Millisecond)
 		mu.Lock()
+		if c.Check(len(events["orphan"]) == 1, "exactly_one_event", fmt.Sprintf("C19/event-count/%d/orphan", len(events["orphan"])), "no single termination event for a leader whose child outlives it", nil) {
+			e := events["orphan"][0].Event
+			c.Check(e.ExitStatus != nil && *e.ExitStatus == 0 && e.Signo == nil, "exit_status_truthful", "C19/exit-status/orphan", "leader exited 0 (child still holding the output pipe) but another status was reported", fmt.Sprint(e.ExitStatus, e.Signo))
+		}
 		c.Check(len(events["noexec"]) == 0, "no_event_without_process", "C19/event-for-failed-exec", "termination event for a process that never started", nil)
 		c.Check(len(events["done"]) == 1 && events["done"][0].Event.ExitStatus != nil && *events["done"][0].Event.ExitStatus == 4, "exit_status_truthful", "C19/exit-status", "exit status of 'exit 4' not reported truthfully", nil)
 		c.Check(len(events["live"]) == 1 && events["live"][0].Event.Signo != nil && *events["live"][0].Event.Signo == 9, "signal_truthful", "C19/kill-signal", "SIGKILL not reported as signal 9", nil)
@@ -139,7 +166,7 @@ func runC19(c *Ctx, d c19Desc) {
 		return
 	}
 
-	kinds := []string{"exit0", "exit3", "sigsegv", "sigkill", "trapterm", "ignoreterm", "forks", "termchild", "quick"}
+	kinds := []string{"exit0", "exit3", "sigsegv", "sigkill", "trapterm", "ignoreterm", "forks", "termchild", "quick", "orphan0", "orphan3"}
 	var procs []*c19Proc
 	for i := 0; i < d.N; i++ {
 		k := kinds[r.Intn(len(kinds))]
@@ -157,6 +184,12 @@ func runC19(c *Ctx, d c19Desc) {
 			p.script, p.wantSig, p.mustEnd = pre+delay+"kill -KILL $$", []int32{9}, true
 		case "quick":
 			p.script, p.wantCode, p.mustEnd = "exit 5", []int32{5}, true
+		case "orphan0", "orphan3":
+			// the leader exits while a forked child still holds its stdout/stderr: the status
+			// reported must be the leader's own, however long the output pipe stays open
+			code := map[string]string{"orphan0": "0", "orphan3": "3"}[k]
+			p.script, p.mustEnd = "sleep 0.9 & "+pre+delay+"echo bye; exit "+code, true
+			p.wantCode = []int32{map[string]int32{"orphan0": 0, "orphan3": 3}[k]}
 		case "trapterm":
 			p.script = "trap 'exit 7' TERM; " + pre + "while :; do sleep 0.02; done"
 		case "ignoreterm":
@@ -169,6 +202,9 @@ func runC19(c *Ctx, d c19Desc) {
 		// actions
 		if p.mustEnd {
 			p.actions = [][]string{{"natural"}, {"natural"}, {"kill"}, {"terminate"}, {"killkill"}, {"killterm"}}[r.Intn(6)]
+			if strings.HasPrefix(k, "orphan") {
+				p.actions = []string{"natural"}
+			}
 		} else {
 			p.actions = [][]string{{"kill"}, {"terminate", "kill"}, {"killkill"}, {"killterm"}, {"terminate", "terminate", "kill"}}[r.Intn(5)]
 		}
@@ -177,7 +213,13 @@ func runC19(c *Ctx, d c19Desc) {
 	}
 	// start all
 	for _, p := range procs {
-		if err := sup.Exec(ctx, &supvmodel.ExecRequest{Domain: "runtime", Name: p.name, Path: "/bin/sh", Args: []string{"-c", p.script}}); err != nil {
+		// output goes to in-memory writers, as when the emulator launches runtimes and extensions
+		// (every third process keeps the supervisor's default of no writers)
+		req := &supvmodel.ExecRequest{Domain: "runtime", Name: p.name, Path: "/bin/sh", Args: []string{"-c", p.script}}
+		if len(p.name)%3 != 0 || strings.HasPrefix(p.kind, "orphan") {
+			req.StdoutWriter, req.StderrWriter = &lockedBuf{}, &lockedBuf{}
+		}
+		if err := sup.Exec(ctx, req); err != nil {
 			c.Inconclusive("exec failed: " + err.Error())
 			return
 		}
